@@ -8,6 +8,8 @@ Decided (E3 on tensor.symmetrize / tensor.issymmetric and the Kruskal versions):
   EXACT  symmetry is decided by exact comparisons (no allclose / isclose in these functions)
   ALLGRP in the symmetry tests the verdict of every group / pair of modes reaches the answer: no loop overwrites a
          plain verdict variable on every iteration and reads it only after the loop ("the last group decides")
+         ... and the group loop of symmetrize (the loop that updates the running copy) has no `break` / `return`: a group that needs no
+         work is skipped with `continue`, leaving the loop would drop every later group
   BCAST    no element-wise operation pairs a column `E[:, k]` of an index matrix with the matrix `E` itself (numpy lines the column up with
            the LAST axis: groups are compared with each other); zero sites on the pinned tree, fixtures
   CARRY    symmetrisation over several groups reads the running copy inside the group loop, never the receiver's original data
@@ -107,6 +109,35 @@ def carried(prog: Program, res: Result) -> None:
                             "last group that needed work is symmetrised")
                 else:
                     res.ok("CARRY", short, desc, prog.loc(fi, loop))
+                # ... and every group gets its turn: the loop is not left early (a `continue` skips one group that needs no work, a `break`
+                # / `return` drops all the later ones)
+                def own_exits(body):
+                    for st in body:
+                        if isinstance(st, (ast.Break, ast.Return)):
+                            yield st
+                        elif isinstance(st, (ast.For, ast.While)):
+                            for x in ast.walk(st):
+                                if isinstance(x, ast.Return):
+                                    yield x
+                            yield from own_exits(st.orelse)
+                        elif isinstance(st, (ast.FunctionDef, ast.AsyncFunctionDef, ast.ClassDef)):
+                            continue
+                        else:
+                            for f in ("body", "orelse", "finalbody"):
+                                b = getattr(st, f, None)
+                                if isinstance(b, list) and b and isinstance(b[0], ast.stmt):
+                                    yield from own_exits(b)
+                            for h in getattr(st, "handlers", []) or []:
+                                yield from own_exits(h.body)
+                desc2 = f"every group of the loop that updates `{w}` is processed (the loop is not left early)"
+                exits = list(own_exits(loop.body))
+                if exits:
+                    kind = "break" if isinstance(exits[0], ast.Break) else "return"
+                    res.bad("ALLGRP", short, desc2, prog.loc(fi, exits[0]),
+                            f"`{kind}` leaves the group loop: the groups listed after the current one are never averaged, so the result is not "
+                            "symmetric in them (a group that needs no work is skipped with `continue`)")
+                else:
+                    res.ok("ALLGRP", short, desc2, prog.loc(fi, loop))
 
 
 def check(prog: Program, res: Result, tier: str) -> None:
